@@ -274,6 +274,11 @@ def insert(
     module = block.module
     cfg = block.ir.cfg
 
+    # Refuse what cannot be added before anything is modified.
+    for sect in code.sections.values():
+        if sect is not text_section:
+            _check_other_section_contents(code, sect)
+
     if isinstance(block, gtirb.CodeBlock):
         _update_patch_return_edges_to_match(
             cache, block, code.cfg, code.proxies
@@ -468,6 +473,34 @@ def _check_compatible_sections(
                 patch_sect.image_flags,
                 flags,
             )
+
+
+def _check_other_section_contents(
+    code: Assembler.Result,
+    sect: Assembler.Result.Section,
+) -> None:
+    """
+    Raises if a non-main section from a patch cannot be added to the module
+    (see _add_other_section_contents).
+    """
+
+    if sect.blocks[-1].size:
+        return
+
+    if isinstance(sect.blocks[-1], gtirb.CodeBlock):
+        if any(code.cfg.in_edges(sect.blocks[-1])):
+            raise NotImplementedError(
+                "Cannot create a zero-sized block with a incoming edges; "
+                "try adding an instruction at the end."
+            )
+
+    if len(sect.blocks) == 1 and any(
+        sym.referent is sect.blocks[-1] for sym in code.symbols
+    ):
+        raise NotImplementedError(
+            "Cannot create a zero-sized block with a label; try "
+            "adding data after the label."
+        )
 
 
 def _add_other_section_contents(
